@@ -220,6 +220,43 @@ def probe_yaml_cache_mutation(_):
             return {"a_seen_by_second_load": a}
 
 
+def _long_input_model():
+    from pyrates import OperatorTemplate, NodeTemplate, CircuitTemplate
+    op = OperatorTemplate(name="lop", equations=["x' = -x/4 + u"], variables={"x": "output(0.0)", "u": "input(0.0)"}, path=None)
+    return CircuitTemplate(name="lnet", nodes={"p": NodeTemplate(name="ln", operators=[op], path=None)}, edges=[], path=None)
+
+
+def _long_input(pos):
+    u = np.zeros(1200)
+    u[pos:pos + 50] = 1.0          # pulses at different positions: identical shape, identical first and last samples
+    return u
+
+
+def probe_long_inputs(variant):
+    """two runs in one process with extrinsic inputs of > 1000 samples that differ only in the middle; the second result vs the same run in a fresh process.
+    variant = (api, clear): api in {'run', 'get_run_func'}"""
+    api, clear, first = variant
+    with M.Scratch():
+        with warnings.catch_warnings():
+            warnings.simplefilter("ignore")
+            try:
+                def go(pos):
+                    c = _long_input_model()
+                    if api == "run":
+                        r = c.run(simulation_time=1200 * 0.125, step_size=0.125, solver="euler", outputs={"x": "p/lop/x"}, inputs={"p/lop/u": _long_input(pos)}, vectorize=False,
+                                  float_precision="float64", verbose=False, clear=clear, in_place=False)
+                        return [float(v) for v in np.asarray(r.values).ravel()[::100]]
+                    f, args, names, smap = c.get_run_func("lf", step_size=0.125, solver="euler", inputs={"p/lop/u": _long_input(pos)}, vectorize=False, float_precision="float64",
+                                                          verbose=False, clear=clear, in_place=False)
+                    y = np.array([0.5])
+                    return [float(np.asarray(f(k, y.copy(), *args[2:])).ravel()[0]) for k in (0, 310, 720, 1199)]
+                if first:
+                    go(300)
+                return {"second": go(700)}
+            except Exception as e:
+                return {"error": type(e).__name__, "msg": str(e)[:200]}
+
+
 def norm(ob):
     """observable restricted to frontend-named quantities (generated edge-operator argument names may legitimately differ)"""
     if "dy" in ob:
@@ -306,6 +343,19 @@ def check(tier, seed, replay=None):
             rep.known_finding("C13-yaml-cache-mutated: from_yaml returns the cached template object; update_var on it is seen by every later from_yaml of the same path until clear()")
         else:
             bad.append(({"probe": "yaml-cache-mutation"}, [{"kind": "second from_yaml shows the first load's update_var", "observed": pr}]))
+    if not replay:
+        variants = [(api, clear) for api in ("run", "get_run_func") for clear in (True, False)]
+        after = C.run_forked(probe_long_inputs, [v + (True,) for v in variants], timeout=600)
+        fresh = C.run_forked(probe_long_inputs, [v + (False,) for v in variants], timeout=600)
+        for v, a, f_ in zip(variants, after, fresh):
+            rep.count("probe-long-inputs-" + v[0] + ("-clear" if v[1] else ""), None, n=1)
+            if "crash" in a or "crash" in f_:
+                raise C.HarnessError("long-input probe crashed: " + str((a, f_))[:400])
+            if a != f_:
+                bad.append(({"probe": "long-inputs", "api": v[0], "clear": v[1], "inputs": "1200 samples, pulse at 300 (first run) / 700 (second run)"},
+                            [{"kind": "second run with another long input differs from the same run in a fresh process", "after_history": a, "fresh_process": f_}]))
+            else:
+                rep.validated()
     rep.sample({"steps": [{k: v for k, v in st.items() if k != "points"} for st in cases[-1]["steps"]], "n_models": len(cases[-1]["models"])})
     rep.cov["streams"]["histories_with_history_dependent_results"] = len(bad)
     if bad:
